@@ -17,6 +17,12 @@ Tie to the source:
      conj / T / H / reverse_sites of those.  For measure_mpo the OPERATOR is chosen first (results of steps first), then a ket it
      can act on and a bra in the sector of op@ket (the product itself becomes a node when no other node lives there), so
      charged, conjugated, transposed and reversed operators are all measured in three-layer environments.
+     The dtype is a property of each SITE TENSOR, not of the chain: a third of the leaves built from >= 2 tensors mix real and complex
+     site tensors at random positions (as in a Pauli string with y somewhere, or a complex-scaled operator after reverse_sites), so
+     conj / T / H / products / sums are compared with dense arithmetic on chains whose first tensor is real and a later one complex and
+     vice versa.  compression_ without truncation is also run against SUM targets in the documented form
+     [[ket_1], [op_2, ket_2], [[op_3, op_4], ket_3]] (2-3 terms with different kets, or one ket with different scalars / norm
+     factors, MPS and MPO, 1site / 2site, exact or perturbed start) and has to reproduce the sum of the dense terms.
  (b) correspondence with the Lean dense model `YModel.DMps` (driver drv_c06) which evaluates the same program from
      the same dense site tensors over exact Gaussian rationals: exact where the real computation is exact
      (integer data scaled by dyadic factors/amplitudes: every value is an integer multiple of the node's unit 2^-dexp and
@@ -86,6 +92,22 @@ def _ints(g, size, cplx, lo=-3, hi=3):
     return d
 
 
+def site_cplx(leaf, n):
+    """is the n-th supplied tensor (product leaves) / the tensor of site n (random leaves) complex?  'cplx_sites' is the dtype profile
+    along the chain (real and complex site tensors mixed, e.g. a Pauli string with y somewhere, a complex-scaled MPO after
+    reverse_sites); without it every tensor has the dtype given by 'cplx'"""
+    cs = leaf.get("cplx_sites")
+    return bool(cs[n % len(cs)]) if cs else bool(leaf["cplx"])
+
+
+def dtype_profile(x):
+    """label of the dtype distribution of the site tensors of a real object (evidence histogram)"""
+    fl = [bool(x[n].is_complex()) for n in range(x.N)]
+    if all(fl) or not any(fl):
+        return "all-complex" if fl[0] else "all-real"
+    return "mixed:first-complex" if fl[0] else "mixed:first-real"
+
+
 class LeafRejected(Exception):
     """the generator proposed a leaf that does not exist (not a failure of the real code)"""
 
@@ -98,18 +120,18 @@ def product_locals(U, leaf):
     cfg, lp = U.cfg, U.lp
     out = []
     if leaf["kind"] == "product_mps":
-        for t in leaf["ts"]:
+        for k, t in enumerate(leaf["ts"]):
             t = tuple(t)
             D = lp.D[lp.t.index(t)]
-            v = yastn.Tensor(config=cfg, s=(lp.s,), n=t, dtype='complex128' if leaf["cplx"] else 'float64')
-            v.set_block(ts=(t,), Ds=(D,), val=_ints(g, D, leaf["cplx"]))
+            v = yastn.Tensor(config=cfg, s=(lp.s,), n=t, dtype='complex128' if site_cplx(leaf, k) else 'float64')
+            v.set_block(ts=(t,), Ds=(D,), val=_ints(g, D, site_cplx(leaf, k)))
             out.append(v)
     else:
-        for q in leaf["qs"]:
+        for k, q in enumerate(leaf["qs"]):
             o = yastn.ones(cfg, legs=[lp, lp.conj()], n=tuple(q))
             if o.size == 0:
                 raise LeafRejected("empty local operator")
-            o._data = _ints(g, o.size, leaf["cplx"])
+            o._data = _ints(g, o.size, site_cplx(leaf, k))
             out.append(o)
     return out
 
@@ -165,11 +187,11 @@ def build_leaf(U, leaf):
     elif kind == "random_mps":
         x = mps.random_mps(U.I, n=tuple(leaf["n"]), D_total=leaf["D"], sigma=leaf.get("sigma", 1))
         for n in range(N):
-            x[n]._data = _ints(g, x[n].size, leaf["cplx"])
+            x[n]._data = _ints(g, x[n].size, site_cplx(leaf, n))
     elif kind in ("random_mpo", "pbc"):
         x = mps.random_mpo(U.I, D_total=leaf["D"], sigma=leaf.get("sigma", 1))
         for n in range(N):
-            x[n]._data = _ints(g, x[n].size, leaf["cplx"], -2, 2)
+            x[n]._data = _ints(g, x[n].size, site_cplx(leaf, n), -2, 2)
         if kind == "pbc":
             p = mps.Mpo(N, periodic=True)
             for n in range(N):
@@ -495,6 +517,16 @@ def gen_leaf(U, rng, kind, n_target=None, ts=None, qs=None):
         leaf["sigma"] = rng.choice([1, 2])
         if kind == "pbc":
             leaf["shift"] = rng.randrange(0, max(U.N, 1))
+    # dtype profile along the chain: a third of the leaves built from >= 2 tensors mix real and complex site tensors (at least one of
+    # each, at random positions) instead of one dtype for the whole chain
+    nt = len(leaf.get("ts", leaf.get("qs", []))) or U.N
+    if nt >= 2 and rng.random() < 0.35:
+        cs = [rng.random() < 0.5 for _ in range(nt)]
+        if all(cs) or not any(cs):
+            k = rng.randrange(nt)
+            cs[k] = not cs[k]
+        leaf["cplx_sites"] = cs
+        leaf["cplx"] = True
     return leaf
 
 
@@ -742,6 +774,59 @@ def gen_case(rng, quick, flavour):
             return True
         return False
 
+    def sum_target_observable():
+        """compression_ against a SUM target [[ket_1], [op_2, ket_2], [[op_3, op_4], ket_3], ...] (documented target form): 2-3 terms,
+        each a plain node or operator(s) acting on a node, all living in the same sector (equal keys of the term results), with
+        DIFFERENT kets whenever the nodes allow it; when only one ket is available, a scalar multiple of it is appended as a node
+        (same state, different scalar / norm factor)."""
+        good = [j for j in ids if not blockless(objs[j])]
+        opsn = [o for o in good if objs[o].nr_phys == 2]
+        pairs = [(o, j) for o in opsn for j in good if objs[j][0].s[1] == -objs[o][0].s[3]]
+        if flavour != "mpo" and rng.random() < 0.7:
+            pairs = [(o, j) for o, j in pairs if objs[j].nr_phys == 1] or pairs
+        rng.shuffle(pairs)
+        props = []          # (key of the result, operators, ket)
+        for o, j in pairs[:6]:
+            try:
+                prod = objs[o] @ objs[j]
+                if blockless(prod) or max(prod.get_bond_dimensions()) > maxD // 3:
+                    continue
+                props.append((key_of(prod), [o], j))
+            except Exception:
+                continue
+        if not props:
+            return False
+        K, o1, j1 = props[0]
+        terms = [{"ops": list(o1), "ket": j1}]
+        pool = [{"ops": list(o), "ket": j} for (k, o, j) in props[1:] if k == K]
+        pool += [{"ops": [], "ket": j} for j in good if keys[j] == K and max(objs[j].get_bond_dimensions()) <= maxD // 3]
+        other = [t for t in pool if t["ket"] != j1]
+        m = rng.choice([2, 2, 3])
+        if not other or rng.random() < 0.3:
+            # the same state with a different scalar (phase in a site tensor, modulus in the separate norm factor)
+            c = list(rng.choice([c for c in SCALARS if c[0] or c[1]]))
+            jn = try_step({"f": "smul", "a": [j1], "c": c})
+            if jn is None:
+                return False
+            ids.append(jn)
+            terms.append({"ops": list(o1) if (keys[jn] != K or rng.random() < 0.4) else [], "ket": jn})
+        while len(terms) < m and pool:
+            src = other if (other and len({t["ket"] for t in terms}) < 2) else pool
+            terms.append(dict(rng.choice(src)))
+        if len(terms) < 2:
+            return False
+        for t in terms:
+            if t["ops"] and rng.random() < 0.3:
+                # [[op, op2, ...], ket]: a sum of operators acting on the ket of this term
+                more = [o2 for o2 in opsn if keys[o2] == keys[t["ops"][0]]]
+                t["ops"] = t["ops"] + [rng.choice(more) for _ in range(rng.choice([1, 2]))]
+            elif len(t["ops"]) == 1 and rng.random() < 0.2:
+                t["nested"] = True      # [[op], ket] instead of [op, ket]
+        rng.shuffle(terms)
+        case["obs"].append({"o": "compress_sum", "terms": terms, "method": rng.choice(["1site", "2site"]) if N > 1 else "1site",
+                            "start": rng.choice(["exact", "perturbed"])})
+        return True
+
     for _ in range(nobs):
         if "gen_exception" in case:
             break
@@ -750,6 +835,8 @@ def gen_case(rng, quick, flavour):
             i = pick(rng, ids)
             same = [j for j in ids if keys[j] == keys[i]]
             case["obs"].append({"o": "overlap", "bra": i, "ket": rng.choice(same), "bonds": r < 0.35 and rng.random() < 0.5})
+    if "gen_exception" not in case and rng.random() < 0.7:
+        sum_target_observable()
     for p in pbcs:
         kets = [j for j in ids if objs[j].nr_phys == 1 and objs[j][0].s[1] == -objs[p][0].s[3]]
         if kets:
@@ -855,7 +942,7 @@ def run_case(ctx, case, model=True):
         objs.append(x); refs.append(ref); absr.append(ab); nrp.append(x.nr_phys); exact.append(True); isp.append(per)
         dexp.append(_l2(leaf["factor"][1]))
         ctx.count(f"leaf:{leaf['kind']}")
-        ctx.count("leaf:data:" + ("complex" if leaf["cplx"] else "real"))
+        ctx.count("leaf:data:" + dtype_profile(x))
         ctx.count("leaf:factor:" + ("unit" if leaf["factor"] == [1, 1] else "non-unit"))
         if leaf["kind"] in ("random_mps", "product_mps"):
             f0 = x.virtual_leg('first')
@@ -884,6 +971,8 @@ def run_case(ctx, case, model=True):
             ctx.count("add:amps:" + ("complex" if any(c[1] for c in st["amps"]) else "mixed-sign" if any(c[0] < 0 for c in st["amps"]) else "positive"))
         if st["f"] == "matmul":
             ctx.count("matmul:" + ("mpo@mps" if nrp[st["a"][1]] == 1 else "mpo@mpo"))
+        if st["f"] in ("H", "T", "conj") and N >= 2 and nr == 2:
+            ctx.count(f"{st['f']}:mpo:operand-dtypes:{dtype_profile(objs[st['a'][0]])}")
         # provenance: does a node contain a product a@b?  sums / differences mixing products with other objects are counted
         fl = [isprod[i] for i in st.get("a", [])]
         if st["f"] in ("add", "plus", "sub") and len(fl) > 1:
@@ -962,6 +1051,7 @@ def run_case(ctx, case, model=True):
     for oi, ob in enumerate(case["obs"]):
         o = ob["o"]
         involved = [ob[k] for k in ("bra", "ket", "x", "a", "b") if k in ob] + list(ob.get("ops", []))
+        involved += [i for t in ob.get("terms", []) for i in [t["ket"]] + list(t["ops"])]
         if any(empty(i) for i in involved):
             # an operand without any symmetry block (e.g. cp@cp): the environments cannot be initialised (edge probe E2)
             ctx.count("obs:skipped:blockless-operand")
@@ -1048,6 +1138,64 @@ def run_case(ctx, case, model=True):
                     fail(f"c06:{o}", f"{o}(node {a}, node {b}) without truncation does not reproduce the exact product: max|diff|={err!r}, "
                                      f"scale={sc!r} max|target|={nrm!r}" + (f" method={ob['method']} start={ob['start']}" if o == "compress" else ""),
                          {"obs": oi})
+                continue
+            elif o == "compress_sum":
+                # 'variational compression without truncation reproduces the exact product', for every documented target form: the
+                # target is a SUM of terms  [ket] / [op, ket] / [[op, op2, ...], ket]  (compression_ docstring: 'sum of any of the three
+                # above'); reference = sum over the terms of (sum of the dense operators) @ dense ket, from NumPy on the leaves
+                terms = ob["terms"]
+                target = sum((sum(apply_op(p, t["ket"]) for p in t["ops"]) if t["ops"] else vec(t["ket"])) for t in terms)
+                sc = float(np.max(sum((sum(apply_abs(p, t["ket"]) for p in t["ops"]) if t["ops"] else absr[t["ket"]].reshape(-1)) for t in terms)))
+                nrm = float(np.max(np.abs(target))) if target.size else 0.0
+                if sc == 0 or not (nrm > 1e-6 * sc):
+                    ctx.count("obs:skipped:compress_sum-cancelling-target")      # the terms cancel: nothing to normalise the result with
+                    continue
+                tgt, parts = [], []
+                for t in terms:
+                    kk = objs[t["ket"]]
+                    if not t["ops"]:
+                        tgt.append([kk]); parts.append(kk)
+                    elif len(t["ops"]) == 1 and not t.get("nested"):
+                        tgt.append([objs[t["ops"][0]], kk]); parts.append(objs[t["ops"][0]] @ kk)
+                    else:
+                        tgt.append([[objs[p] for p in t["ops"]], kk]); parts += [objs[p] @ kk for p in t["ops"]]
+                # initial state: virtual spaces large enough for the exact result (those of the direct sum of the terms, QR/SVD-reduced
+                # with tol 1e-14), data either the exact sum or perturbed by 50% (then 6 sweeps)
+                try:
+                    z = mps.add(*parts)
+                    z.canonize_(to='last', normalize=False)
+                    z.truncate_(to='first', opts_svd={'tol': 1e-14}, normalize=False)
+                except Exception as e:
+                    # the harness could not prepare its initial state (canonize_/truncate_ of the direct sum are not observables of
+                    # this property): compression_ was not called, so nothing is claimed about it; recorded, never hidden
+                    ctx.count(f"obs:skipped:compress_sum-start-state:{type(e).__name__}")
+                    note = (f"candidate defect outside C06 (not counted): canonize_/truncate_ of mps.add of {len(parts)} products raised "
+                            f"{type(e).__name__}: {str(e)[:120]} while preparing the start state of compress_sum [{tag}]")
+                    if note not in ctx.notes and len([x for x in ctx.notes if 'start state of compress_sum' in x]) < 3:
+                        ctx.notes.append(note)
+                    continue
+                if ob["start"] == "perturbed":
+                    g = np.random.default_rng(oi + 29)
+                    for n in range(N):
+                        z[n]._data = z[n]._data * (1 + 0.5 * g.uniform(-1, 1, size=z[n].size))
+                    z.factor = 1
+                    sweeps = 6
+                else:
+                    sweeps = 1
+                mps.compression_(z, tgt, method=ob["method"], max_sweeps=sweeps, normalize=False, opts_svd={'tol': 1e-14})
+                real = dense_of(U, z).reshape(-1)
+                err = float(np.max(np.abs(real - target))) if real.shape == target.shape else float("inf")
+                nk = len({t["ket"] for t in terms})
+                ctx.count(f"obs:compress_sum:{ob['method']}:{ob['start']}")
+                ctx.count("compress_sum:" + ("mpo" if nrp[terms[0]["ket"]] == 2 else "mps") + ":kets:" + ("distinct" if nk > 1 else "same"))
+                for t in terms:
+                    ctx.count("compress_sum:term:" + ("[ket]" if not t["ops"] else "[op,ket]" if len(t["ops"]) == 1 and not t.get("nested") else "[[ops],ket]"))
+                ctx.extra["max_rel_dev_compress_sum"] = max(ctx.extra.get("max_rel_dev_compress_sum", 0.0), err / sc)
+                tol = 1e-9 if ob["start"] == "exact" else 1e-7
+                if not (err <= tol * sc):
+                    fail("c06:compress_sum", f"compression_ (method={ob['method']}, start={ob['start']}) against the sum target {terms} without "
+                                             f"truncation does not reproduce the sum of the terms: max|diff|={err!r}, scale={sc!r} "
+                                             f"max|target|={nrm!r}", {"obs": oi})
                 continue
             else:
                 continue
@@ -1195,7 +1343,8 @@ def fixed_cases():
             {"kind": "random_mps", "seed": 11, "cplx": False, "factor": [2, 1], "n": n, "D": 3, "sigma": 1},
             {"kind": "product_mps", "seed": 12, "cplx": True, "factor": [1, 2], "ts": ts},
             {"kind": "random_mpo", "seed": 13, "cplx": False, "factor": [3, 1], "D": 3, "sigma": 1},
-            {"kind": "random_mpo", "seed": 14, "cplx": True, "factor": [1, 1], "D": 2, "sigma": 1},
+            # for N >= 2: real first site tensor, complex second one (dtype profile along the chain is not uniform)
+            dict({"kind": "random_mpo", "seed": 14, "cplx": True, "factor": [1, 1], "D": 2, "sigma": 1}, **({"cplx_sites": [False, True]} if N > 1 else {})),
         ]
         steps = [
             {"f": "add", "a": [0, 1, 0], "amps": [[3, 4, 1], [-2, 0, 1], [0, -1, 1]]},      # 4: mixed phases, repeated operand
@@ -1237,6 +1386,12 @@ def fixed_cases():
             {"o": "mpo", "bra": 22, "ops": [9, 2, 19], "ket": 18, "bonds": False, "aslist": True},
             {"o": "overlap", "bra": 21, "ket": 5, "bonds": True},
             {"o": "overlap", "bra": 19, "ket": 9, "bonds": False},
+            # compression against SUMS of terms with different kets: (a+b)@c + x,  G@H + H - 2 (G@H),  G@x' + H@c + c
+            {"o": "compress_sum", "terms": [{"ops": [7], "ket": 5}, {"ops": [], "ket": 4}], "method": "1site", "start": "exact"},
+            {"o": "compress_sum", "terms": [{"ops": [2], "ket": 3}, {"ops": [], "ket": 3}, {"ops": [], "ket": 19}],
+             "method": "2site" if N > 1 else "1site", "start": "perturbed"},
+            {"o": "compress_sum", "terms": [{"ops": [2], "ket": 4}, {"ops": [3, 7], "ket": 5}, {"ops": [], "ket": 5}],
+             "method": "2site" if N > 1 else "1site", "start": "exact"},
         ]
         out.append({"kind": "prog", "uni": uni, "flavour": "fixed", "leaves": leaves, "steps": steps, "obs": obs})
     return out
@@ -1464,6 +1619,25 @@ def edge_probes(ctx):
         found.append(("c06:env:blockless-operator", "measure_mpo(bra, op, ket) with an operator that has no symmetry block (e.g. "
                       f"product_mpo([cp, I]) @ product_mpo([cp, I]), identically zero) raises {type(e).__name__} ({e}) instead of returning 0 "
                       "(_env.py EnvParent_3_obc.__init__: legv.t[0] on an empty leg)", {"kind": "edge", "probe": "E2"}))
+    # E3 (repaired by 342309d; registered as `fixed`, so a recurrence is a violation): overlap / canonize_ of a sum of five nested
+    # MPO-MPS products - the intersection masks of deeply nested hard-fused virtual legs
+    try:
+        ops3 = yastn.operators.SpinfulFermions(sym='U1xU1xZ2')
+        ops3.random_seed(seed=0)
+        I3 = mps.product_mpo(ops3.I(), 2)
+        psi0 = mps.random_mps(I3, n=(0, 0, 0), D_total=4)
+        vac = mps.product_mps(ops3.vec_n((0, 0)), 2)
+        x10 = I3 @ (I3 @ vac - mps.add(0.5 * psi0, vac, amplitudes=[-1j, 1]))
+        p_, q_ = I3 @ x10, I3 @ (0.5 * x10)
+        z = mps.add(p_, p_, p_, q_, q_)
+        ov = complex(mps.measure_overlap(z, z))
+        ref = 16.0 * complex(mps.measure_overlap(x10, x10))      # z = (3 + 2*0.5) * I I x10
+        ctx.count("edge:E3:nested-sum-overlap")
+        if abs(ov - ref) > 1e-9 * max(1.0, abs(ref)):
+            found.append(("c06:overlap:hfs-overflow", f"<z|z> = {ov!r} for z = p+p+p+q+q (p = I@x, q = I@(0.5 x)), expected 16 <x|x> = {ref!r}", {"kind": "edge", "probe": "E3"}))
+        z.canonize_(to='last', normalize=False)
+    except Exception as e:
+        found.append(("c06:overlap:hfs-overflow", f"overlap / canonize_ of a sum of five nested MPO-MPS products raised {type(e).__name__}: {e}", {"kind": "edge", "probe": "E3"}))
     for key, what, case in found:
         ctx.count(f"edge:{key}")
         if key in known:
@@ -1523,7 +1697,10 @@ def run(ctx):
                 "(a conjugated copy is appended if needed) and a bra with the virtual legs of op@ket (the product is appended as a node if "
                 "no node has them). Every node: to_tensor()/to_matrix() vs NumPy on the leaves; 3-6 numbers per case "
                 "(measure_overlap, measure_mpo incl. lists and periodic MPOs, Env.measure at every bond, vdot) vs np.vdot; mps_from_tensor, zipper, "
-                "compression_ (1site/2site) without truncation. Non-trivial = N>=2 and >=2 steps; distinct by full spec.")
+                "compression_ (1site/2site) without truncation, for 70% of the programs also against a SUM target [[ket],[op,ket],[[op,op2],ket]] "
+                "of 2-3 same-sector terms with different kets (a scalar multiple of a ket is appended when no second ket exists), start = "
+                "exact sum or 50%-perturbed (6 sweeps). 35% of the leaves built from >=2 tensors mix real and complex site tensors at "
+                "random positions (dtype profile along the chain). Non-trivial = N>=2 and >=2 steps; distinct by full spec.")
     ctx.assumptions += [
         "factor is real and non-negative (documented in _mps_parent.py:45); conj() does not touch it",
         "dense objects are compared in the basis of to_tensor() (one leg per site); to_matrix() is checked to be its leg fusion",
